@@ -1,4 +1,5 @@
-"""C08 - the generator rejects conflicts / left recursion; the shipped grammars are LL(1) by an independent analysis."""
+"""C08 - the generator: EBNF -> NFA fragments, conflict / left-recursion rejection, state equality, no state outliving a call.
+(The LL(1) analysis of the shipped grammar *files* belongs to C06 / C02: a grammar file cannot break a property of the generator.)"""
 from ..rules import gen, gr, thompson
 
 
@@ -8,7 +9,6 @@ def check(ctx, rep):
     gen.gen_3(ctx, rep)
     gen.gen_6(ctx, rep)
     thompson.gen_5(ctx, rep)      # EBNF -> NFA fragments: language of every construction path
-    gr.gr_1_4(ctx, rep, with_follow=True)
     from ..rules import eff as _eff1
     _eff1.eff_1(ctx, rep, only=[('parso/pgen2/generator.py', 'generate_grammar')], minimum=5)     # nothing outlives a call: the result is a function of the arguments alone
     rep.note('Not decided: faithfulness of the NFA -> DFA subset construction and of the first-set / plan tables as an '
